@@ -200,7 +200,18 @@ func baseLoad(L *LState) int {
 	for {
 		L.SetTop(top)
 		L.Push(fn)
-		L.Call(0, 1)
+		// the reader runs under load's own protection, as under lua_load's protected
+		// parser: its error is load's second result
+		if err := L.PCall(0, 1, nil); err != nil {
+			L.SetTop(top)
+			L.Push(LNil)
+			if aerr, ok := err.(*ApiError); ok && aerr.Object != nil {
+				L.Push(aerr.Object)
+			} else {
+				L.Push(LString(err.Error()))
+			}
+			return 2
+		}
 		ret := L.reg.Pop()
 		if ret == LNil {
 			break
